@@ -1691,7 +1691,9 @@ class Judge28(object):
                     run.probe('content-read-back')
                     if not (want & got):
                         others = sorted(n for n, v in before.items() if v[0] == 'f' and n not in members and uids_in(v[1]) & got)
-                        if pref is not None and any(n in S for n in others):
+                        if pref is not None and (any(n in S for n in others) or not got):
+                            # two host files share the DOS name and the other one was read (its content may carry
+                            # no number at all): the known consequence of exact-spelling-first matching
                             sig = 'case-variant-acts-on-other-file:colliding-host-names:' + kind
                         elif others:
                             sig = 'opened-non-matching-host-file:' + kind
